@@ -175,7 +175,8 @@ theorem weight_eq_ser (t : Tx) (hin : t.vin ≠ []) (hout : t.vout ≠ []) (stri
       rw [serTx_null_witness t hw, hs] at hf; exact (Except.ok.inj hf).symm
     subst this
     simp [calcWeight, h1, h2, hw, hf, Except.map]; omega
-  · simp [calcWeight, h1, h2, hw, hs, hf, Except.map]; omega
+  · have hv := MerkleProofs.ctorValid_of_ser t true full hf
+    simp [calcWeight, h1, h2, hw, hv, hs, hf, Except.map]; omega
 
 /-- weight equals the BIP141 definition over the wire format -/
 theorem weight_eq (t : Tx) (h : TxRange t) (hin : t.vin ≠ []) (hout : t.vout ≠ []) :
